@@ -555,7 +555,7 @@ pub fn run_c19(run: &Run) {
             let n = reference.len() - 2;
             let hs = handles(n);
             // all sequences over the multiset {D x n, R x pr, L x pl, X x px} (X = the end of the chain goes away)
-            let configs: Vec<[usize; 3]> = if quick { vec![[1, 1, 0], [2, 0, 1]] } else { vec![[2, 1, 0], [2, 1, 1]] };
+            let configs: Vec<[usize; 3]> = if quick { vec![[1, 1, 0], [2, 0, 1]] } else { vec![[2, 1, 0], [1, 1, 1], [2, 0, 1]] };
             let mut seqs: Vec<Vec<u8>> = vec![];
             for [pr, pl, px] in configs {
                 let mut part: Vec<Vec<u8>> = vec![vec![]];
@@ -577,6 +577,7 @@ pub fn run_c19(run: &Run) {
                 seqs.extend(part);
             }
             for s in &seqs {
+                run.heartbeat();
                 // handle choices for the polls of this order
                 let npolls = s.iter().filter(|e| **e == 1 || **e == 2).count();
                 let mut choice = vec![0usize; npolls];
@@ -599,7 +600,7 @@ pub fn run_c19(run: &Run) {
                         .collect();
                     for (ctor, pre) in [(0u8, 0usize), (3, 0), (0, 1), (3, n), (0, n), (3, 1)] {
                         // late wiring only in the schedules in which the end of the chain stays
-                        if pre > n || (pre > 0 && s.contains(&3)) || (pre == n && n == 1 && ctor == 0) {
+                        if pre > n || (pre > 0 && (s.contains(&3) || npolls > 2)) || (pre == n && n == 1 && ctor == 0) {
                             continue;
                         }
                         st.schedules += 1;
